@@ -16,6 +16,42 @@ CHECKS = {
              "correspondence on exhaustive small grids + random large grids and on dyadic/float evaluation points.",
         ref="§5 C13", technique="Lean 4 proof (mixed-radix arithmetic, field identities) + exact model/implementation correspondence",
         note=NOTE_COMMON + "1-D domains are outside the property."),
+    "C02": dict(
+        text="Lean theorems about the executable dispatch model (Core/Network.lean: Module.response/sensitivity/reset, Network order, "
+             "skip rule, add_sensitivity per input, slices, nesting): the model's reverse sweep IS the back-chain of the linearised "
+             "modules (sensitivity_is_backChain); under single assignment every source entry receives exactly the transposed-Jacobian "
+             "chain (backprop_is_transpose / total_derivative / paths_summed_once), unseeded branches contribute nothing, nested = flattened; "
+             "each module kind's adjoint is its transposed Jacobian and the Jacobian is the exact derivative. Model tied to core_objects.py by "
+             "exact correspondence on random DAG programs (int64) after every operation; oracle: exact dual-number derivative of the real network.",
+        ref="§5 C02", technique="Lean 4 proof (induction over the module list, big-operator algebra) + exact correspondence + exact-derivative oracle",
+        note=NOTE_COMMON + "The chain rule for the COMPOSED response (fwdChain is the derivative of Prog.response) is not a theorem; it is checked by the dual-number oracle on the real code on every run."),
+    "C03": dict(
+        text="Generic Lean theorem over a caching-component model (Core/Component.lean): if under a cache invariant outputs and sensitivities are functions "
+             "of current inputs/seeds only (HistFree), every protocol-respecting history over {set,response,seed,sensitivity,reset} refines the cache-free "
+             "specification, hence the cycle after reset equals a fresh component (history_independent); reset leaves nothing; sensitivity without seed is a no-op. "
+             "Instances: stateless, overwrite-cache, previous-solution-as-guess with unique solution. The step function is tied to the real Module/Signal dispatch by exact "
+             "correspondence on random histories; the property itself is checked on the real code for every module family, LinSolve matrix-class changes and FE networks "
+             "(history vs fresh instance).",
+        ref="§5 C03", technique="Lean 4 proof (refinement by induction over histories) + correspondence + fresh-instance oracle on the real code",
+        note=NOTE_COMMON + "Per-module discharge of the HistFree contract for the library's caches is by the fresh-instance oracle (bounded, seeded), not by proof, except for the three generic instances; sparse EigenSolve (ARPACK) is partial."),
+    "C16": dict(
+        text="Lean theorems: AggActiveSet mask = value band minus floor-counted lowest/highest argsort positions (zero count removes nothing), AggScaling first/step/undamped-exact/recurrence, "
+             "module response anatomy; over R: P-norm, KS and soft-max bounds incl. the sharp soft-max bound, and HasDerivAt of each aggregation = pairing with the coded derivative. "
+             "Model (generic scalar; Rat for masks/scaling, Float for exp/log/pow) tied to aggregation.py by exact mask / tolerance value correspondence.",
+        ref="§5 C16", technique="Lean 4 proof (order/field algebra, real analysis via Mathlib) + correspondence (exact masks, tolerance values)",
+        note=NOTE_COMMON + "np.argsort enters as a contract (a permutation sorting ascending), checked on every case; libm vs numpy exp/log/pow to 1e-9."),
+    "C18": dict(
+        text="Lean theorems on a heap model of Signal/SignalSlice (Core/Signal.lean): reset clears / zeroes the same object in place, add_sensitivity copies on first add (fresh object, aliased by nothing) "
+             "and adds in place afterwards, mutating the caller's array afterwards changes nothing held, slice add/set/reset touch only the slice's index set of the base's own array and create a zero "
+             "base sensitivity when absent. Model tied to core_objects.py by exact correspondence after every operation of random op sequences incl. identity classes and alias probes; numpy-spec oracle.",
+        ref="§5 C18", technique="Lean 4 proof (heap frame lemmas, induction over op lists) + exact correspondence + abstract-spec oracle",
+        note=NOTE_COMMON + "PARTIAL: the slice theorems are proved for depth-1 slices of a base holding a whole array; the full refinement to the gather/scatter spec (signal_refines_spec) and nested-slice depth are covered only by correspondence and the numpy spec oracle."),
+    "C20": dict(
+        text="Lean theorems: base64 decode(encode bs) = bs for all byte lists (+length, injectivity); parse(render doc) = doc for the VTI grammar as written by write_to_vti (extent, origin, spacing, "
+             "sections, array names, component counts, payload bytes; length prefix as coded); cell/point classification, 2-D padding (u,v,0), written-file round trip; ScalarToFile split/join round trip, "
+             "one header + one row per call with the iteration number first. Byte-exact correspondence of the model with files written by the real code; independent decode oracle (xml/base64/struct).",
+        ref="§5 C20", technique="Lean 4 proof (induction on byte chunks, parser/printer round trip) + byte-exact correspondence",
+        note=NOTE_COMMON + "float64->float32 rounding and Python number formatting are external (bytes/strings are inputs of the model); OS/file system trusted."),
 }
 
 NOT_APPLICABLE = {
